@@ -21,7 +21,7 @@ RULE = ("scripts = 2..4 scripted modules on a ring (gate out -> next module, gat
         "{timer deadline at that instant} x {restart delay} x {gate}.  non-trivial = distinct script whose run resets a module and hits >= 3 "
         "targeted mechanisms")
 TRUSTED = ["user code is a script language: log / send_in(out|far) / schedule_in / sleep (tasks) / shutdown / shutdow_and_restart_in / panic / "
-           "quiet / set_stereotyp; tasks are spawned by at_sim_start(0) only (tokio::spawn, handle given to join or try_join as the script "
+           "quiet / set_stereotyp / schedule_at, send_at and shutdow_and_restart_at with a past time stamp (library-raised panics); tasks are spawned by at_sim_start(0) only (tokio::spawn, handle given to join or try_join as the script "
            "says; spawn and task end are logged by the scripted code), one timer per task at a time",
            "the event set is the two-list specification that C01 proves the calendar queue refines",
            "tokio is modelled as: woken and freshly spawned tasks are polled once each, FIFO, by the yield inside Harness::exec; dropping "
@@ -177,7 +177,7 @@ def task_sleeps(prog):
     """the sleeps a task really takes, in order: sleep(0) returns at once, nothing runs after a panic"""
     out = []
     for a in prog:
-        if a[0] == "panic":
+        if a[0] in PANICS:
             break
         if a[0] == "sleep" and a[1] > 0:
             out.append(a[1])
@@ -480,7 +480,7 @@ def no_panic(script):
     for m in d["mods"]:
         for ps in (m["start"], m["msg"], m["tasks"], [m["end"]]):
             for p in ps:
-                p[:] = [a if a[0] not in ("panic", "quiet") else ("log", 99) for a in p]
+                p[:] = [a if a[0] not in PANICS + ("quiet",) else ("log", 99) for a in p]
     return encode(d)
 
 
